@@ -93,9 +93,12 @@ def normalize_ev(geom, evals, method="geometry"):
 
     elif method == "volume":
         if type(geom).__name__ == "TriaMesh":
-            geom.orient_()
+            # orient a copy, do not modify the mesh of the caller
+            bnd = type(geom)(geom.v, geom.t)
 
-            vol = geom.volume()
+            bnd.orient_()
+
+            vol = bnd.volume()
 
         elif type(geom).__name__ == "TetMesh":
             bnd = geom.boundary_tria()
